@@ -27,7 +27,10 @@ var propImports = map[string][][]string{
 	"C01": {{"C02", "ADMISSIBLE", "CLUSTER", "RUNES"}, {"C11", "KIND", "SIZE", "EXACT-STORE", "ERR", "TAG"}},
 	"C02": {{"C03", "SYNTAX"}},
 	"C03": {{"C02", "ADMISSIBLE", "CLUSTER", "RUNES"}, {"C10", "BEFORE-COMMANDS"}},
+	"C04": {{"C09", "ERR-recovery"}},
+	"C05": {{"C01", "REARM"}},
 	"C06": {{"C10", "BEFORE-COMMANDS"}},
+	"C07": {{"C09", "ERR-recovery"}, {"C02", "SPLIT"}, {"C08", "SCOPE"}, {"C19", "NOFLAG"}},
 	"C09": {{"C06", "WALK", "SELECT", "POSITIONAL"}},
 	"C10": {{"C03", "TERMINATOR", "PASSAFTER"}},
 	"C12": {{"C13", "FUNNEL"}, {"C11", "TAG"}},
